@@ -18,7 +18,7 @@ ROOT = os.path.dirname(os.path.dirname(os.path.abspath(__file__)))
 def run(pid, stage_name, case, timeout=600):
     from vlib.core import Violation
 
-    env = dict(os.environ, PYTHONHASHSEED="0", PYTHONPATH=ROOT + os.pathsep + os.environ.get("PYTHONPATH", ""))
+    env = dict(os.environ, PYTHONPATH=ROOT + os.pathsep + os.environ.get("PYTHONPATH", ""))
     proc = subprocess.run(
         [sys.executable, "-m", "vlib.coldstart"], input=json.dumps({"pid": pid, "stage": stage_name, "case": case}),
         capture_output=True, text=True, env=env, cwd=ROOT, timeout=timeout, check=False,
